@@ -2,6 +2,7 @@ package mon
 
 import (
 	"fmt"
+	banktypes "github.com/cosmos/cosmos-sdk/x/bank/types"
 	"math/big"
 	"math/rand"
 	"os"
@@ -33,19 +34,20 @@ var distDenoms = []string{"uc4e", "foo", "ibc/27394FB092D2ECCD56123C74F36E4C1F92
 type distEnv struct {
 	n *chain.Node
 	// inflows are multiples of 20^5 (used together with gen.DistOpts.NiceShares)
-	wholeAmounts bool
-	faucet       chain.Key
-	bases        []chain.Key
-	vesting      chain.Key
-	blocked      string
-	mainAddr     string
-	keeper       distkeeper.Keeper
-	model        *model.Distributor
-	subs         []model.DSub
-	receipts     map[string]model.Coins // address or BURN -> cumulative gross receipts from main
-	assigned     map[string]model.Coins // destination key -> cumulative amounts reported by Distribution events
-	block        int
-	time         time.Time
+	wholeAmounts    bool
+	userSendsToMain int // accepted user transfers to the main account (expected: none)
+	faucet          chain.Key
+	bases           []chain.Key
+	vesting         chain.Key
+	blocked         string
+	mainAddr        string
+	keeper          distkeeper.Keeper
+	model           *model.Distributor
+	subs            []model.DSub
+	receipts        map[string]model.Coins // address or BURN -> cumulative gross receipts from main
+	assigned        map[string]model.Coins // destination key -> cumulative amounts reported by Distribution events
+	block           int
+	time            time.Time
 }
 
 func distOpts(e *distEnv, alias bool) gen.DistOpts {
@@ -261,6 +263,19 @@ func (e *distEnv) stepLazy(k distkeeper.Keeper, preds func() (func(string) bool,
 	}()
 	if obs.panicked != nil {
 		return
+	}
+	// a user transaction inside the block: plain transfers to the distributor's main account
+	// are refused by the bank (blocked address). If one got through, the books checked at the
+	// end of this block could not match the balance.
+	if e.block%3 == 0 {
+		msg := &banktypes.MsgSend{FromAddress: e.faucet.Bech(), ToAddress: e.mainAddr, Amount: sdk.NewCoins(sdk.NewCoin("uc4e", sdk.NewInt(int64(1+e.block%977))))}
+		if h := e.n.App.MsgServiceRouter().Handler(msg); h != nil {
+			cctx, write := e.n.Ctx().CacheContext()
+			if _, herr := h(cctx, msg); herr == nil {
+				write()
+				e.userSendsToMain++
+			}
+		}
 	}
 	obs.events = ctx.EventManager().ABCIEvents()
 	obs.states = e.n.App.CfedistributorKeeper.GetAllStates(e.n.Ctx())
